@@ -329,6 +329,44 @@ func main() {
 		fmt.Fprintf(&b, "def callbacksWired : Bool := %v\n",
 			strings.Contains(nrs, "OnStartedLeading: limiter.startLeading") && strings.Contains(nrs, "OnStoppedLeading: limiter.stopLeading"))
 
+		// ---- the HTTP handlers: with which upstream the two request entry points are called
+		const dpFile = "pkg/ratelimiter/endpoints/dispather/limiter_dispater.go"
+		df := g.ParseFile(dpFile)
+		b.WriteString("/-! " + dpFile + ": calls of the limiter's request entry points and where their `domain` comes from -/\n")
+		var calls []string
+		for _, d := range df.Decls {
+			fd, ok := d.(*ast.FuncDecl)
+			if !ok || fd.Body == nil {
+				continue
+			}
+			domain := ""
+			ast.Inspect(fd.Body, func(x ast.Node) bool {
+				switch e := x.(type) {
+				case *ast.AssignStmt:
+					if len(e.Lhs) == 1 && show(e.Lhs[0]) == "domain" {
+						domain = show(e)
+					}
+				case *ast.CallExpr:
+					if sel, ok := e.Fun.(*ast.SelectorExpr); ok && (sel.Sel.Name == "UpdateRateLimitConditionStatus" || sel.Sel.Name == "DoAcquire") {
+						calls = append(calls, fd.Name.Name+": "+domain+"; "+show(e))
+					}
+				}
+				return true
+			})
+		}
+		sort.Strings(calls)
+		fmt.Fprintf(&b, "def dispatcherCalls : List String := %s\n", lib.LeanStrList(calls))
+		// syncUpstreamClustersForShard hands the handler only the upstreams of the shard
+		sy := mustFunc(rf, rlFile, "rateLimiter", "syncUpstreamClustersForShard")
+		syncFilter := ""
+		ast.Inspect(sy.Body, func(x ast.Node) bool {
+			if ifs, ok := x.(*ast.IfStmt); ok && strings.Contains(show(ifs.Cond), ".GetShardID(") {
+				syncFilter = normUtil(show(ifs.Cond), rutil)
+			}
+			return true
+		})
+		fmt.Fprintf(&b, "def syncShardFilter : String := %q\n", syncFilter)
+
 		// ---- elector
 		const elFile = "pkg/ratelimiter/limiter/elector/leader_elector.go"
 		ef := g.ParseFile(elFile)
